@@ -166,10 +166,13 @@ package keeper
 //@ modifies reporter.*, staking.*, bank.bal, dispute.DisputeFeePayer
 
 //@ func (k Keeper).AddDisputeRound(ctx, sender, dispute, msg) (err)
-//@ requires [round_counter_below_2_64] dispute.DisputeRound < 18446744073709551615
+//@ requires [round_counter_fits_int64] dispute.DisputeRound < 9223372036854775808
 //@ modifies dispute.Disputes, dispute.Votes, reporter.*, staking.*, bank.bal, dispute.DisputeFeePayer, A_*
 //@ ensures [only_an_open_unresolved_unexpired_dispute_gets_a_new_round] err == nil ==> dispute.DisputeStatus == types.Unresolved && dispute.Open && dispute.DisputeEndTime >= blocktime(ctx)
 //@ ensures [superseded_round_is_closed_and_not_pending_execution] err == nil ==> has(dispute.Disputes, dispute.DisputeId) && !dispute.Disputes[dispute.DisputeId].Open && !dispute.Disputes[dispute.DisputeId].PendingExecution
 //@ ensures [new_round_is_stored_under_an_unused_id_and_votes_start] err == nil ==> ret(NextDisputeId, 0) != dispute.DisputeId && has(dispute.Disputes, ret(NextDisputeId, 0)) && dispute.Disputes[ret(NextDisputeId, 0)].DisputeStatus == types.Voting && dispute.Disputes[ret(NextDisputeId, 0)].DisputeRound == dispute.DisputeRound + 1 && dispute.Disputes[ret(NextDisputeId, 0)].DisputeId == ret(NextDisputeId, 0) && has(dispute.Votes, ret(NextDisputeId, 0)) && dispute.Votes[ret(NextDisputeId, 0)].VoteStart == blocktime(ctx) && dispute.Votes[ret(NextDisputeId, 0)].VoteEnd == blocktime(ctx) + 172800000000000
+// five_percent(s): 5% of the slash amount s, computed like the code does (18-decimal division, truncated)
+//@ define five_percent(s) = dectrunc(decquo(decmul(s * 1000000000000000000, 1000000000000000000), 20000000000000000000))
+//@ ensures [round_fee_is_five_percent_doubled_per_round_capped_by_the_slash_amount] err == nil ==> arg(PayDisputeFee, fee).Amount == (five_percent(dispute.SlashAmount) * pow2(dispute.DisputeRound) > dispute.SlashAmount ? dispute.SlashAmount : five_percent(dispute.SlashAmount) * pow2(dispute.DisputeRound))
 //@ ensures [round_fee_doubles_and_is_capped_by_the_slash_amount] err == nil ==> arg(PayDisputeFee, fee).Amount <= dispute.SlashAmount && dispute.Disputes[ret(NextDisputeId, 0)].FeeTotal == dispute.FeeTotal + arg(PayDisputeFee, fee).Amount
 //@ ensures [other_disputes_untouched] forall d int :: d != dispute.DisputeId && d != ret(NextDisputeId, 0) ==> (has(dispute.Disputes, d) <==> old(has(dispute.Disputes, d))) && dispute.Disputes[d] == old(dispute.Disputes[d])
